@@ -354,6 +354,8 @@ PLANS["C07"] = {
         MC("conc-badger", "CloverConc", "MC_Conc_badger.cfg", workers=12),
         MC("conc-badger-prerepair", "CloverConc", "MC_Conc_badger_prefix.cfg", workers=12, expect_violation="Linearizable"),
         MC("conc-badger3", "CloverConc", "MC_Conc_badger3.cfg", workers=14, heap="24g", timeout=3000, tier="thorough"),
+        # binding of the model to the code: the keys each operation really reads / writes (advisory drift)
+        AUX("rwset", "rwset", (1, 1), module="TraceRW", invariants=["InvRW"], advisory=True, chunk=200),
         {"kind": "lin", "name": "lin", "n": (120, 3000), "maxg": 4, "ops": 3, "chunk": 10},
         {"kind": "lin", "name": "lin-wide", "n": (30, 1000), "maxg": 8, "ops": 3, "chunk": 5, "seed_off": 31},
         {"kind": "race", "name": "race", "n": (40, 600), "maxg": 6},
